@@ -61,7 +61,7 @@ func runForwardAfterPeerReplaced(c *Ctx) {
 		}
 		member := func() mangos.Socket {
 			s, _ := bus.NewSocket()
-			_ = s.SetOption(mangos.OptionRecvDeadline, 700*time.Millisecond)
+			_ = s.SetOption(mangos.OptionRecvDeadline, 2*time.Second)
 			mu.Lock()
 			a0 := attached
 			mu.Unlock()
@@ -282,10 +282,12 @@ func runDevicePlumbing(c *Ctx) {
 	// a forwarder whose source socket cannot receive at all (PUB, PUSH) returns at once: it was started but is not seen
 	// alive; `gone` says how many of those the call must have started
 	one := func(s1, s2 mangos.Socket, same bool, what string, gone int) {
-		vp.QuiesceT(500 * time.Millisecond)
+		vp.QuiesceT(2 * time.Second)
 		n0 := forwarders()
 		err := mangos.Device(s1, s2)
-		vp.QuiesceT(500 * time.Millisecond) // forwarders that return at once have gone, the others are parked in RecvMsg
+		// forwarders that return at once have gone, the others are parked in RecvMsg
+		for try := 0; try < 5 && !vp.QuiesceT(time.Second); try++ {
+		}
 		n1 := forwarders()
 		obs := ""
 		switch err {
